@@ -456,6 +456,10 @@ func checkPair(c pairCase) error {
 			pbt.Class("one-label-two-spellings")
 			pbt.Sample("one-label-two-spellings", sa+" | "+sb)
 		}
+		if quotedVsRaw(c.TA, c.TB, want) {
+			pbt.Class("quoted-char-against-raw")
+			pbt.Sample("quoted-char-against-raw", sa+" | "+sb)
+		}
 	}
 	if got := dns.CompareDomainName(sa, sb); got != want {
 		return pbt.Errf("CompareDomainName(%q,%q)=%d want %d", sa, sb, got, want)
@@ -672,6 +676,9 @@ type originCase struct {
 	// every octet, see pairCase); Rel and Origin are ignored
 	Spelled    bool     `json:",omitempty"`
 	TRel, TOrg []string `json:",omitempty"`
+	// TOrg2: the origin once more, every octet in a spelling of its own (round 10); only used when
+	// it denotes the same labels as TOrg
+	TOrg2 []string `json:",omitempty"`
 }
 
 func checkOrigin(c originCase) error {
@@ -742,6 +749,20 @@ func checkOrigin(c originCase) error {
 		if len(org) > 0 {
 			if tr := dnsutil.TrimDomainName(sorgFQ, other); tr != "@" {
 				return pbt.Errf("TrimDomainName(%q,%q)=%q want @", sorgFQ, other, tr)
+			}
+		}
+	}
+	// the origin in another spelling (`\a` for `a`, `\045` for `-`, `\1` for `1`) is the same origin:
+	// it comes off the name that was made with the first spelling, and leaves that name's own text
+	if o2, ok := unescLabels(c.TOrg2); c.Spelled && ok && len(org) > 0 && o2.Equal(org) {
+		if sorg2 := joinSpelled(c.TOrg2, c.OriginFQ); sorg2 != sorg {
+			pbt.Class("origin-respelled")
+			pbt.Sample("origin-respelled", abs+" | "+sorg2)
+			if back := dnsutil.TrimDomainName(abs, sorg2); back != srel {
+				return pbt.Errf("TrimDomainName(AddOrigin(%q,%q)=%q,%q)=%q want %q (the origin in another spelling)", srel, sorg, abs, sorg2, back, srel)
+			}
+			if tr := dnsutil.TrimDomainName(sorgFQ, sorg2); tr != "@" {
+				return pbt.Errf("TrimDomainName(%q,%q)=%q want @ (the origin in another spelling)", sorgFQ, sorg2, tr)
 			}
 		}
 	}
